@@ -42,6 +42,9 @@ type Mismatch struct {
 	// OpsJSON is the machine-readable form of Ops (the replay input).
 	OpsJSON json.RawMessage `json:"ops_json,omitempty"`
 	Kind    string          `json:"kind,omitempty"` // bt | gcs | ...
+	// SpecVerdict: "rejects" (the property itself fails on this input), "accepts" (the tie broke but the
+	// property holds on this input), "" (not evaluated separately: the compared observables are the property).
+	SpecVerdict string `json:"spec_verdict,omitempty"`
 }
 
 type Report struct {
